@@ -985,3 +985,472 @@ Proof. intros Hk. apply run_u_refines; cbn [self]; [apply Abs_new | apply cap_ne
 
 End LawfulU.
 End Unchecked.
+
+(* ======================================================================== *)
+(* ROUND 2                                                                   *)
+(* ======================================================================== *)
+Require Import Proofs.SetDict Proofs.MoreOwned.
+
+(* ---------------------------------------------------------------------- *)
+(* PART E — C14, second audit                                               *)
+Section EqIff2.
+Context {K V Q T : Type} (E : env K V Q T).
+Context (ck : K -> N) (cq : Q -> N) (HL : Lawful E ck cq).
+Context (veq : V -> V -> bool) (HV : forall s a b, fst (eqV E s a b) = if veq a b then Yes else No).
+Notation world := (world K V T). Notation map := (map K V). Notation kv := (K * V)%type.
+
+(* E6 (finding 6): the environment-level laws used by map_eq_sym_run /
+   map_eq_refl_run are EQUIVALENT (given HV) to the laws of the boolean function
+   veq: nothing beyond "V's == is symmetric / reflexive" is assumed *)
+Lemma eqV_sym_of_veq : (forall x y, veq x y = veq y x) ->
+  forall s s' x y, fst (eqV E s x y) = fst (eqV E s' y x).
+Proof. intros Hs s s' x y. rewrite !HV, (Hs x y). reflexivity. Qed.
+
+Lemma eqV_refl_of_veq : (forall x, veq x x = true) -> forall s x, fst (eqV E s x x) = Yes.
+Proof. intros Hr s x. rewrite HV, Hr. reflexivity. Qed.
+
+Lemma map_eq_sym_run_veq (a b : map) (w : world) :
+  (forall x y, veq x y = veq y x) ->
+  WF a -> WF b -> Uniq ck (elems a) -> Uniq ck (elems b) ->
+  exists r w1 w2, map_eq E a b w = Ok r w1 /\ map_eq E b a w = Ok r w2 /\ stable w w1 /\ stable w w2.
+Proof. intros Hs. apply (map_eq_sym_run E ck cq HL veq HV a b w (eqV_sym_of_veq Hs)). Qed.
+
+Lemma map_eq_refl_run_veq (a : map) (w : world) :
+  (forall x, veq x x = true) ->
+  WF a -> Uniq ck (elems a) ->
+  exists w', map_eq E a a w = Ok true w' /\ stable w w'.
+Proof. intros Hr. apply (map_eq_refl_run E ck cq HL veq HV a w (eqV_refl_of_veq Hr)). Qed.
+
+(* E4 (finding 4): histories whose ideal dictionaries hold the same classes with
+   ==-related values (NOT necessarily the same objects) give containers that
+   compare equal.  Replaces map_eq_same_dict, whose hypothesis equated the
+   stored (key object, value) pairs themselves. *)
+Lemma map_eq_agree_dict (debug : bool) (na nb : nat) (ops_a ops_b : list (@dop K V Q))
+      (sa sb : T) (la lb : list event) :
+  (forall c, match d_find ck (dfinal ck cq na ops_a []) c, d_find ck (dfinal ck cq nb ops_b []) c with
+             | Some (_, v), Some (_, v') => veq v' v = true
+             | None, None => True
+             | _, _ => False
+             end) ->
+  exists wa wb,
+    mfinal E debug ops_a {| cb := sa; log := la; self := new_map na |} = Some wa /\
+    mfinal E debug ops_b {| cb := sb; log := lb; self := new_map nb |} = Some wb /\
+    forall w : world, exists w', map_eq E (self wa) (self wb) w = Ok true w' /\ stable w w'.
+Proof.
+  intros Hd.
+  destruct (map_eq_histories E ck cq HL veq HV debug na nb ops_a ops_b sa sb la lb)
+    as (wa & wb & Hfa & Hfb & _ & _ & H).
+  exists wa, wb. split; [exact Hfa|]. split; [exact Hfb|]. intros w.
+  specialize (H w). unfold wp in H.
+  destruct (map_eq E (self wa) (self wb) w) as [r w'|w'|]; [|contradiction|contradiction].
+  destruct H as [Hst Hiff]. exists w'. split; [|exact Hst]. f_equal. apply Hiff. exact Hd.
+Qed.
+
+End EqIff2.
+
+(* E5 (finding 5): the Set twin of map_eq_histories.  Two histories of the nine
+   set operations (SetDict.sop) run from empty sets of any capacities: both runs
+   exist, and == on the results answers true exactly when the two IDEAL sets
+   (SetDict.fsfinal) hold the same element classes.
+   Reflexivity / symmetry for sets are the instances of map_eq_refl_run_veq /
+   map_eq_sym_run_veq at veq := fun _ _ => true (trivially reflexive and
+   symmetric): see set_eq_sym_run / set_eq_refl_run below. *)
+Section SetEq2.
+Context {K Q T : Type} (E : env K unit Q T).
+Context (ck : K -> N) (cq : Q -> N) (HL : Lawful E ck cq).
+Context (HVu : forall s a b, fst (eqV E s a b) = Yes).
+Notation world := (world K unit T).
+
+Lemma sabs_classes (m : map K unit) (s : list K) c :
+  SAbs ck m s -> (In c (List.map (fun p => ck (fst p)) (elems m)) <-> In c (List.map ck s)).
+Proof.
+  intros (_ & _ & Hp). rewrite <- (map_map fst ck).
+  split; apply Permutation_in; [|apply Permutation_sym]; apply Permutation_map; exact Hp.
+Qed.
+
+Lemma set_eq_histories (debug : bool) (na nb : nat) (ops_a ops_b : list (@sop K Q))
+      (sa sb : T) (la lb : list event) :
+  exists wa wb,
+    smfinal E debug ops_a {| cb := sa; log := la; self := new_map na |} = Some wa /\
+    smfinal E debug ops_b {| cb := sb; log := lb; self := new_map nb |} = Some wb /\
+    cap (self wa) = na /\ cap (self wb) = nb /\
+    forall w : world,
+      wp (map_eq E (self wa) (self wb))
+         (fun r w' => stable w w' /\
+            (r = true <->
+             forall c, In c (List.map ck (fsfinal ck cq na ops_a [])) <->
+                       In c (List.map ck (fsfinal ck cq nb ops_b []))))
+         (fun _ => False) w.
+Proof.
+  destruct (srun_refines_state_new E debug ck cq HL na ops_a sa la) as (wa & Hfa & Aa & Hca).
+  destruct (srun_refines_state_new E debug ck cq HL nb ops_b sb lb) as (wb & Hfb & Ab & Hcb).
+  exists wa, wb. repeat (split; [assumption|]). intros w.
+  pose proof Aa as (Ha & Hua & _). pose proof Ab as (Hb & Hub & _).
+  eapply wp_mono; [apply (set_eq_iff E ck cq HL HVu (self wa) (self wb) w Ha Hb Hua Hub) | | auto]; cbn beta.
+  intros r w' [Hst Hiff]. split; [exact Hst|]. rewrite Hiff.
+  split; intros H c; specialize (H c).
+  - rewrite <- (sabs_classes _ _ c Aa), <- (sabs_classes _ _ c Ab). exact H.
+  - rewrite (sabs_classes _ _ c Aa), (sabs_classes _ _ c Ab). exact H.
+Qed.
+
+Lemma set_eq_sym_run (a b : map K unit) (w : world) :
+  WF a -> WF b -> Uniq ck (elems a) -> Uniq ck (elems b) ->
+  exists r w1 w2, map_eq E a b w = Ok r w1 /\ map_eq E b a w = Ok r w2 /\ stable w w1 /\ stable w w2.
+Proof.
+  apply (map_eq_sym_run_veq E ck cq HL (fun _ _ : unit => true) HVu a b w). reflexivity.
+Qed.
+
+Lemma set_eq_refl_run (a : map K unit) (w : world) :
+  WF a -> Uniq ck (elems a) -> exists w', map_eq E a a w = Ok true w' /\ stable w w'.
+Proof.
+  apply (map_eq_refl_run_veq E ck cq HL (fun _ _ : unit => true) HVu a w). reflexivity.
+Qed.
+
+End SetEq2.
+
+(* ---------------------------------------------------------------------- *)
+(* PART F — C15, second audit: findings 2 and 3                             *)
+
+(* F3 (finding 3): clone_lawful instantiated at the two environments of the
+   correspondence check WITH its log clause: exactly one K::clone and one
+   V::clone event per stored entry, in slot order *)
+Lemma clone_honest_map_full sc (src : map key vobj) (w : world key vobj cstate) : honest sc ->
+  WF src -> WF (self w) -> len (self w) = 0 -> cap (self w) = cap src ->
+  wp (clone_from_src (env_map sc) src)
+     (fun _ w' => WF (self w') /\ cap (self w') = cap src /\ len (self w') = len src /\
+        Forall2 (fun p p' => kcls (fst p') = kcls (fst p) /\ N.eqb (vdat (snd p')) (vdat (snd p)) = true)
+                (Spec.elems src) (Spec.elems (self w')) /\
+        logged w w' (flat_map (fun p : key * vobj => [EvCloneK (kid (fst p)); EvCloneV (vid (snd p))])
+                              (Spec.elems src)))
+     (fun _ => False) w.
+Proof.
+  intros Hh Hsrc Hw Hl Hc.
+  exact (clone_lawful (env_map sc) kcls (fun a b => N.eqb (vdat a) (vdat b))
+           (env_map_cloneK sc Hh) (env_map_cloneV sc Hh) src w Hsrc Hw Hl Hc).
+Qed.
+
+Lemma clone_honest_set_full sc (src : map key unit) (w : world key unit cstate) : honest sc ->
+  WF src -> WF (self w) -> len (self w) = 0 -> cap (self w) = cap src ->
+  wp (clone_from_src (env_set sc) src)
+     (fun _ w' => WF (self w') /\ cap (self w') = cap src /\ len (self w') = len src /\
+        Forall2 (fun p p' : key * unit => kcls (fst p') = kcls (fst p)) (Spec.elems src) (Spec.elems (self w')) /\
+        logged w w' (flat_map (fun p : key * unit => [EvCloneK (kid (fst p))]) (Spec.elems src)))
+     (fun _ => False) w.
+Proof.
+  intros Hh Hsrc Hw Hl Hc.
+  eapply wp_mono;
+    [apply (clone_lawful (env_set sc) kcls (fun _ _ : unit => true)
+              (env_set_cloneK sc Hh) (env_set_cloneV sc) src w Hsrc Hw Hl Hc) | | auto]; cbn beta.
+  intros _ w' (H1 & H2 & H3 & H4 & H5). split; [exact H1|]. split; [exact H2|]. split; [exact H3|]. split.
+  - eapply Forall2_impl'; [|exact H4]. cbn beta. intros a b [H _]. exact H.
+  - exact H5.
+Qed.
+
+(* F2 (finding 2): a later HISTORY on one copy cannot destroy, store or hand out
+   an object of the other copy.  ANY environment.  [foreign] = identities that
+   the container does not hold and that no operation of the history hands in. *)
+Section Foreign.
+Context {K V Q T : Type} (E : env K V Q T) (debug : bool).
+Notation world := (world K V T). Notation map := (map K V).
+
+Lemma history_foreign_untouched (foreign : list N) (ops : list (@dop K V Q)) (w : world) :
+  WF (self w) -> Forall (op_ok E) ops ->
+  (forall x, In x foreign -> ~ In x (owned E (self w)) /\ ~ In x (flat_map (op_ins E) ops) /\
+                             ~ In x (dropped (log w))) ->
+  exists wf, mfinal E debug ops w = Some wf /\ WF (self wf) /\
+    forall x, In x foreign ->
+      ~ In x (owned E (self wf)) /\ ~ In x (mouts E debug ops w) /\ ~ In x (dropped (log wf)).
+Proof.
+  intros Hw Hok Hf.
+  destruct (run_acct E debug ops w Hw Hok) as (wf & lost & H1 & H2 & _ & HP).
+  exists wf. split; [exact H1|]. split; [exact H2|]. intros x Hx. destruct (Hf x Hx) as (Ha & Hb & Hc).
+  apply (count_occ_not_In N.eq_dec) in Ha. apply (count_occ_not_In N.eq_dec) in Hb.
+  apply (count_occ_not_In N.eq_dec) in Hc.
+  apply (perm_cnt1 _ _ x) in HP. rewrite !count_occ_app in HP.
+  split; [apply (proj2 (count_occ_not_In N.eq_dec _ x)); lia|].
+  split; apply (proj2 (count_occ_not_In N.eq_dec _ x)); lia.
+Qed.
+
+(* composed with clone_disjoint_run: after a Clone that returned, run ANY history
+   of dictionary operations on the clone (resp. on the original), from any later
+   world holding it in which the other copy's objects are alive (not in the drop
+   log), handing in only identities that are not the other copy's: afterwards no
+   identity of the other copy is stored in the mutated copy, has been handed out
+   by the history, or HAS BEEN DESTROYED *)
+Lemma clone_then_history_independent (src : map) (w : world) :
+  WF src -> WF (self w) -> len (self w) = 0 -> cap (self w) = cap src -> Tidy (self w) ->
+  (forall x, In x (flat_map (ids_pair E) (clone_made E src (len src) 0 (cb w))) -> ~ In x (owned E src)) ->
+  wp (clone_from_src E src)
+     (fun _ w' =>
+        (forall (ops : list (@dop K V Q)) (w2 : world),
+            self w2 = self w' -> Forall (op_ok E) ops ->
+            (forall x, In x (owned E src) -> ~ In x (flat_map (op_ins E) ops) /\ ~ In x (dropped (log w2))) ->
+            exists wf, mfinal E debug ops w2 = Some wf /\
+              forall x, In x (owned E src) ->
+                ~ In x (owned E (self wf)) /\ ~ In x (mouts E debug ops w2) /\ ~ In x (dropped (log wf))) /\
+        (forall (ops : list (@dop K V Q)) (w2 : world),
+            self w2 = src -> Forall (op_ok E) ops ->
+            (forall x, In x (owned E (self w')) -> ~ In x (flat_map (op_ins E) ops) /\ ~ In x (dropped (log w2))) ->
+            exists wf, mfinal E debug ops w2 = Some wf /\
+              forall x, In x (owned E (self w')) ->
+                ~ In x (owned E (self wf)) /\ ~ In x (mouts E debug ops w2) /\ ~ In x (dropped (log wf))))
+     (fun _ => True) w.
+Proof.
+  intros Hsrc Hw Hl Hc Ht Hfresh.
+  eapply wp_mono; [apply (clone_disjoint_run E src w Hsrc Hw Hl Hc Ht Hfresh) | | auto]; cbn beta.
+  intros _ w' (Hw' & _ & _ & _ & Hd1 & Hd2). split.
+  - intros ops w2 Hs2 Hok Hins.
+    destruct (history_foreign_untouched (owned E src) ops w2) as (wf & H1 & _ & H2);
+      [rewrite Hs2; exact Hw' | exact Hok | | eauto].
+    intros x Hx. destruct (Hins x Hx) as [Hi1 Hi2].
+    split; [rewrite Hs2; apply Hd2; exact Hx | split; assumption].
+  - intros ops w2 Hs2 Hok Hins.
+    destruct (history_foreign_untouched (owned E (self w')) ops w2) as (wf & H1 & _ & H2);
+      [rewrite Hs2; exact Hsrc | exact Hok | | eauto].
+    intros x Hx. destruct (Hins x Hx) as [Hi1 Hi2].
+    split; [rewrite Hs2; apply Hd1; exact Hx | split; assumption].
+Qed.
+
+End Foreign.
+
+(* ---------------------------------------------------------------------- *)
+(* PART G — C18, second audit                                               *)
+Section Unchecked2.
+Context {K V Q T : Type} (E : env K V Q T) (debug : bool).
+Context (ck : K -> N) (cq : Q -> N) (HL : Lawful E ck cq).
+Notation world := (world K V T). Notation map := (map K V). Notation kv := (K * V)%type.
+Notation M := (M K V T).
+
+(* G7 (finding 7): the ownership ledger of insert_unchecked within its whole
+   contract, as ONE statement: it cannot panic; what was stored, handed in and
+   destroyed before = what is stored, handed back, (lost) and destroyed after;
+   from a tidy container nothing is lost *)
+Lemma insert_unchecked_acct k v (w : world) :
+  WF (self w) ->
+  (len (self w) < cap (self w) \/ exists i, find_idx ck (ck k) (elems (self w)) = Some i) ->
+  wp (insert_unchecked E debug k v)
+     (fun r w' => WF (self w') /\ cap (self w') = cap (self w) /\
+        exists lost, acct E w w' (ids_pair E (k, v)) (match r with Some v0 => idV E v0 | None => [] end) lost /\
+                     (Tidy (self w) -> lost = [] /\ Tidy (self w')))
+     (fun _ => False) w.
+Proof.
+  intros Hw Hc.
+  pose proof (insert_unchecked_spec E debug ck cq HL k v w Hw Hc) as H1.
+  pose proof (conserves_insert E debug k v w Hw) as H2.
+  unfold wp in *. rewrite (insert_unchecked_eq_insert_contract E debug ck cq HL k v w Hw Hc) in *.
+  destruct (insert E debug k v w) as [r w'|w'|]; [exact H2 | exact H1 | exact H1].
+Qed.
+
+(* G8 (finding 8): histories that also contain get_disjoint_mut /
+   get_disjoint_unchecked_mut calls.  The observable result of such a call is
+   what the returned references point to; on the ideal dictionary: the
+   association of every requested class. *)
+Inductive wop :=
+| WBase (o : @uop K V Q)
+| WDisjoint (unchecked : bool) (ks : list Q).
+
+Inductive wres := WR (r : @dres K V) | WMany (l : list (option kv)).
+
+Fixpoint read_opt_slots (l : list (option nat)) : M (list (option kv)) :=
+  match l with
+  | [] => ret []
+  | None :: t => r <- read_opt_slots t ;; ret (None :: r)
+  | Some i :: t => p <- p_ref i ;; r <- read_opt_slots t ;; ret (Some p :: r)
+  end.
+
+Definition mstep_w (o : wop) : M wres :=
+  match o with
+  | WBase o => r <- mstep_u E debug o ;; ret (WR r)
+  | WDisjoint u ks =>
+      l <- (if u then get_disjoint_unchecked_mut E ks else get_disjoint_mut E ks) ;;
+      r <- read_opt_slots l ;; ret (WMany r)
+  end.
+
+(* every unchecked call is replaced by its checked counterpart *)
+Definition erase_w (o : wop) : wop :=
+  match o with
+  | WBase o => WBase (UBase (erase o))
+  | WDisjoint _ ks => WDisjoint false ks
+  end.
+
+(* the ideal dictionary: the checked call panics on overlapping requests; the
+   flag does not occur *)
+Definition dstep_w (n : nat) (o : wop) (d : list kv) : wres * list kv :=
+  match o with
+  | WBase o => let '(r, d') := dstep ck cq n (erase o) d in (WR r, d')
+  | WDisjoint _ ks =>
+      (if nodupb (List.map cq ks) then WMany (List.map (fun q => d_find ck d (cq q)) ks) else WR RPanic, d)
+  end.
+
+(* the documented contracts: insert_unchecked as before; get_disjoint_unchecked_mut:
+   pairwise different requested classes *)
+Definition contract_w (n : nat) (o : wop) (d : list kv) : Prop :=
+  match o with
+  | WBase o => contract_u ck n o d
+  | WDisjoint true ks => NoDup (List.map cq ks)
+  | WDisjoint false _ => True
+  end.
+
+Fixpoint contracts_w (n : nat) (ops : list wop) (d : list kv) : Prop :=
+  match ops with
+  | [] => True
+  | o :: t => contract_w n o d /\ contracts_w n t (snd (dstep_w n o d))
+  end.
+
+Fixpoint mrun_w (ops : list wop) (w : world) : list wres :=
+  match ops with
+  | [] => []
+  | o :: t => match mstep_w o w with
+              | Ok r w' => r :: mrun_w t w'
+              | Panic w' => WR RPanic :: mrun_w t w'
+              | UB => []
+              end
+  end.
+
+Fixpoint mfinal_w (ops : list wop) (w : world) : option world :=
+  match ops with
+  | [] => Some w
+  | o :: t => match mstep_w o w with
+              | Ok _ w' => mfinal_w t w'
+              | Panic w' => mfinal_w t w'
+              | UB => None
+              end
+  end.
+
+Fixpoint drun_w (n : nat) (ops : list wop) (d : list kv) : list wres :=
+  match ops with
+  | [] => []
+  | o :: t => let '(r, d') := dstep_w n o d in r :: drun_w n t d'
+  end.
+
+Fixpoint dfinal_w (n : nat) (ops : list wop) (d : list kv) : list kv :=
+  match ops with
+  | [] => d
+  | o :: t => dfinal_w n t (snd (dstep_w n o d))
+  end.
+
+Lemma read_opt_slots_spec (l : list kv) : forall (qs : list N) (w : world),
+  WF (self w) -> elems (self w) = l ->
+  wp (read_opt_slots (List.map (fun c => find_idx ck c l) qs))
+     (fun r w' => w' = w /\ r = List.map (fun c => lookup ck l c) qs) (fun _ => False) w.
+Proof.
+  induction qs as [|c qs IH]; intros w Hw He; cbn [List.map read_opt_slots].
+  - apply wp_ret. split; reflexivity.
+  - unfold lookup at 1. destruct (find_idx ck c l) as [i|] eqn:Hf.
+    + destruct (find_idx_inv ck c l i Hf) as [[p [Hp _]] _]. rewrite <- He in Hp.
+      destruct (elems_nth_slot _ _ _ Hw Hp) as [_ Hsl]. rewrite He in Hp. rewrite Hp.
+      apply wp_bind. eapply wp_p_ref; [exact Hsl|]. apply wp_bind.
+      eapply wp_mono; [apply (IH w Hw He) | | auto]; cbn beta.
+      intros r w' [-> ->]. apply wp_ret. split; reflexivity.
+    + apply wp_bind. eapply wp_mono; [apply (IH w Hw He) | | auto]; cbn beta.
+      intros r w' [-> ->]. apply wp_ret. split; reflexivity.
+Qed.
+
+Lemma world_stable_eq (w w' : world) : stable w w' -> w' = with_cb w (cb w').
+Proof. intros [Hs Hl]. unfold with_cb. rewrite <- Hs, <- Hl. apply world_eta. Qed.
+
+(* one step refines the ideal step *)
+Lemma step_w_refines n (o : wop) (w : world) (d : list kv) :
+  Abs ck (self w) d -> cap (self w) = n -> contract_w n o d ->
+  match mstep_w o w with
+  | Ok r w' => fst (dstep_w n o d) = r /\ Abs ck (self w') (snd (dstep_w n o d)) /\ cap (self w') = n
+  | Panic w' => fst (dstep_w n o d) = WR RPanic /\ snd (dstep_w n o d) = d /\ self w' = self w
+  | UB => False
+  end.
+Proof.
+  intros Ha Hc Hk. destruct o as [o|u ks].
+  - cbn [mstep_w dstep_w contract_w] in *. unfold bind.
+    rewrite (mstep_u_eq E debug ck cq HL n o w d Ha Hc Hk).
+    pose proof (step_refines E debug ck cq HL n (erase o) w d Ha Hc) as Hs.
+    destruct (dstep ck cq n (erase o) d) as [r' d']. cbn [fst snd] in *.
+    destruct (mstep E debug (erase o) w) as [r w'|w'|]; [|exact (match Hs with conj H1 H2 => conj (f_equal WR H1) H2 end)|exact Hs].
+    destruct Hs as (<- & H2). cbn [ret]. split; [reflexivity | exact H2].
+  - cbn [mstep_w dstep_w fst snd]. pose proof Ha as (Hw & Hu & Hp).
+    assert (Hchecked : NoDup (List.map cq ks) ->
+              forall c : M (list (option nat)),
+                wp c (fun r w' => stable w w' /\ r = List.map (fun q => find_idx ck (cq q) (elems (self w))) ks)
+                   (fun _ => False) w ->
+                match bind c (fun l => r <- read_opt_slots l ;; ret (WMany r)) w with
+                | Ok r w' => WMany (List.map (fun q => d_find ck d (cq q)) ks) = r /\ Abs ck (self w') d /\ cap (self w') = n
+                | Panic _ => False
+                | UB => False
+                end).
+    { intros Hnd c Hcw. unfold bind at 1. unfold wp in Hcw.
+      destruct (c w) as [l w1|w1|]; [|contradiction|contradiction].
+      destruct Hcw as [Hst ->]. pose proof Hst as [Hs1 _].
+      pose proof (read_opt_slots_spec (elems (self w)) (List.map cq ks) w1) as Hr.
+      rewrite map_map in Hr. specialize (Hr ltac:(rewrite Hs1; exact Hw) ltac:(rewrite Hs1; reflexivity)).
+      unfold bind. unfold wp in Hr.
+      destruct (read_opt_slots _ w1) as [r w2|w2|]; [|contradiction|contradiction].
+      destruct Hr as [-> ->]. cbn [ret]. rewrite Hs1. split; [|split; [exact Ha | exact Hc]].
+      f_equal. rewrite map_map. apply map_ext. intros q. symmetry. apply (abs_lookup_dfind ck (self w) d (cq q) Ha). }
+    destruct (nodupb (List.map cq ks)) eqn:Hnb.
+    + assert (Hnd : NoDup (List.map cq ks)) by (apply nodupb_spec; exact Hnb).
+      destruct u.
+      * pose proof (Hchecked Hnd _ (disjoint_unchecked_lawful E ck cq HL ks w Hw Hu Hnd)) as H.
+        destruct (bind _ _ w) as [r w'|w'|]; [exact H | destruct H | destruct H].
+      * pose proof (Hchecked Hnd _ (disjoint_lawful E ck cq HL ks w Hw Hu Hnd)) as H.
+        destruct (bind _ _ w) as [r w'|w'|]; [exact H | destruct H | destruct H].
+    + assert (Hnd : ~ NoDup (List.map cq ks)).
+      { intros H. apply nodupb_spec in H. congruence. }
+      destruct u; [cbn [contract_w] in Hk; contradiction|].
+      pose proof (disjoint_overlap_panics E ck cq HL ks w Hw Hnd) as H. unfold wp in H. unfold bind.
+      destruct (get_disjoint_mut E ks w) as [r w'|w'|]; [destruct H | | destruct H].
+      split; [reflexivity|]. split; [reflexivity | apply H].
+Qed.
+
+Theorem run_w_refines n (ops : list wop) : forall (w : world) (d : list kv),
+  Abs ck (self w) d -> cap (self w) = n -> contracts_w n ops d ->
+  mrun_w ops w = drun_w n ops d /\
+  exists wf, mfinal_w ops w = Some wf /\ Abs ck (self wf) (dfinal_w n ops d) /\ cap (self wf) = n.
+Proof.
+  induction ops as [|o t IH]; intros w d Ha Hc Hk.
+  - split; [reflexivity|]. exists w. split; [reflexivity|]. split; assumption.
+  - cbn [contracts_w] in Hk. destruct Hk as [Hk Hkt].
+    cbn [mrun_w mfinal_w drun_w dfinal_w].
+    pose proof (step_w_refines n o w d Ha Hc Hk) as Hs.
+    destruct (dstep_w n o d) as [r' d'] eqn:Hd. cbn [fst snd] in *.
+    destruct (mstep_w o w) as [r w'|w'|]; [| |destruct Hs].
+    + destruct Hs as (<- & Ha' & Hc'). destruct (IH w' d' Ha' Hc' Hkt) as [H1 H2]. rewrite H1. split; [reflexivity | exact H2].
+    + destruct Hs as (-> & -> & Hs'). rewrite <- Hs' in Ha, Hc.
+      destruct (IH w' d Ha Hc Hkt) as [H1 H2]. rewrite H1. split; [reflexivity | exact H2].
+Qed.
+
+(* the ideal run does not see whether a call was checked or unchecked ... *)
+Lemma dstep_w_erase n o d : dstep_w n (erase_w o) d = dstep_w n o d.
+Proof. destruct o as [[o|k v]|u ks]; reflexivity. Qed.
+
+Lemma drun_w_erase n ops : forall d,
+  drun_w n (List.map erase_w ops) d = drun_w n ops d /\ dfinal_w n (List.map erase_w ops) d = dfinal_w n ops d.
+Proof.
+  induction ops as [|o t IH]; intros d; [split; reflexivity|].
+  cbn [List.map drun_w dfinal_w]. rewrite dstep_w_erase.
+  destruct (dstep_w n o d) as [r d']. cbn [snd]. destruct (IH d') as [H1 H2]. rewrite H1, H2. split; reflexivity.
+Qed.
+
+Lemma contracts_w_erase n ops : forall d, contracts_w n ops d -> contracts_w n (List.map erase_w ops) d.
+Proof.
+  induction ops as [|o t IH]; intros d Hk; [exact I|].
+  cbn [List.map contracts_w] in *. destruct Hk as [Hk Hkt]. rewrite dstep_w_erase. split; [|apply IH; exact Hkt].
+  destruct o as [[o|k v]|u ks]; exact I.
+Qed.
+
+(* ... hence a history with unchecked calls (insert_unchecked,
+   get_disjoint_unchecked_mut) made within their contracts has exactly the
+   results of the history in which every one of them is replaced by the checked
+   call, and both end in containers holding the same dictionary *)
+Theorem run_w_eq_checked n (ops : list wop) (w : world) (d : list kv) :
+  Abs ck (self w) d -> cap (self w) = n -> contracts_w n ops d ->
+  mrun_w ops w = mrun_w (List.map erase_w ops) w /\
+  exists wf wf', mfinal_w ops w = Some wf /\ mfinal_w (List.map erase_w ops) w = Some wf' /\
+                 Abs ck (self wf) (dfinal_w n ops d) /\ Abs ck (self wf') (dfinal_w n ops d) /\
+                 cap (self wf) = n /\ cap (self wf') = n.
+Proof.
+  intros Ha Hc Hk.
+  destruct (run_w_refines n ops w d Ha Hc Hk) as (H1 & wf & H2 & H3 & H4).
+  destruct (run_w_refines n (List.map erase_w ops) w d Ha Hc (contracts_w_erase n ops d Hk)) as (H1' & wf' & H2' & H3' & H4').
+  destruct (drun_w_erase n ops d) as [He1 He2]. rewrite He1 in H1'. rewrite He2 in H3'.
+  split; [congruence|]. exists wf, wf'. auto 10.
+Qed.
+
+End Unchecked2.
